@@ -129,8 +129,8 @@ def _market_definition(m, u):
         "numberOfWinners": int(m.get("winners", 1)),
         "bettingType": m.get("betting_type", "ODDS"),
         "marketType": m.get("market_type", "WIN"),
-        "marketTime": m.get("market_time", "2023-11-14T23:00:00.000Z"),
-        "suspendTime": m.get("market_time", "2023-11-14T23:00:00.000Z"),
+        "marketTime": u.get("market_time") or m.get("market_time", "2023-11-14T23:00:00.000Z"),      # a market can be re-timed
+        "suspendTime": u.get("market_time") or m.get("market_time", "2023-11-14T23:00:00.000Z"),
         "bspReconciled": bool(u.get("bsp_rec", False)),
         "complete": True,
         "inPlay": bool(u.get("inplay", False)),
@@ -158,7 +158,7 @@ def _market_definition(m, u):
     return md
 
 
-_MD_KEYS = ("status", "inplay", "version", "bet_delay", "bsp_rec", "rstat")
+_MD_KEYS = ("status", "inplay", "version", "bet_delay", "bsp_rec", "rstat", "market_time")
 
 
 def write_market_file(path, m):
@@ -1320,6 +1320,18 @@ def run_scenario(scn, keep_dir=None, snapshots=True, extra_setup=None):
         p = os.path.join(workdir, m["id"])
         write_market_file(p, m)
         paths.append(p)
+    if scn.get("shared_file") and len(paths) > 1:
+        # one recorded file carrying several markets (event-level / self-recorded files): the lines of the
+        # per-market files merged by publish time
+        merged = []
+        for pth in paths:
+            with open(pth) as f:
+                merged += [json.loads(l) for l in f if l.strip()]
+        merged.sort(key=lambda d: d["pt"])        # stable: equal times keep the order of the markets
+        shared = os.path.join(workdir, "shared_" + scn["markets"][0]["id"])
+        with open(shared, "w") as f:
+            f.write("\n".join(json.dumps(d) for d in merged) + "\n")
+        paths = [shared]
     saved_cfg = {k: getattr(fconfig, k) for k in ("place_latency", "cancel_latency", "update_latency", "replace_latency", "simulated_strategy_isolation", "simulation_available_prices", "raise_errors", "simulated", "current_time")}
     real_dt = datetime.datetime
     patches = Patches()
